@@ -755,14 +755,28 @@ func (c *Ctx) runAllChildren(rule string, pkgs []*packages.Package, filter func(
 					}
 					inLoop := false
 					for h, body := range loops {
-						if body[b] && isInduction(ia.Index, h, body) {
-							inLoop = true
+						if !body[b] || !isInduction(ia.Index, h, body) {
+							continue
+						}
+						// the loop must run over the children slice itself:
+						// its exit test compares the index with len(children)
+						for hb := range body {
+							if len(hb.Instrs) == 0 {
+								continue
+							}
+							ifi, ok := hb.Instrs[len(hb.Instrs)-1].(*ssa.If)
+							if !ok {
+								continue
+							}
+							if be, ok := ifi.Cond.(*ssa.BinOp); ok && (isLenOf(be.Y, ld) || isLenOf(be.X, ld)) {
+								inLoop = true
+							}
 						}
 					}
 					if inLoop {
 						c.ok(rule, key, ia.Pos(), "children are visited by a loop over the whole slice")
 					} else {
-						c.bad(rule, key, ia.Pos(), "children are indexed by something other than a loop over the whole slice")
+						c.bad(rule, key, ia.Pos(), "children are indexed by something other than a loop over the whole children slice (e.g. a loop over a fixed-size result): nodes with more children lose the others")
 					}
 				}
 			}
